@@ -4,7 +4,7 @@ import Op2Proofs.Bmp.ReadInv
 that parameter beyond the one comparison `size < length`
 -/
 namespace Op2.Bmp
-open Op2 Op2.Parser
+open Op2 Op2.Parser Op2.Parser.BmpInv
 
 theorem local_i32 : Local Rd.i32 := local_map _ local_u32
 
